@@ -46,15 +46,17 @@ pub fn sync_diff(lay: &Layout, m: &Model, s: &State) -> Option<String> {
     None
 }
 
-struct Run<'a> { seen: &'a mut HashSet<&'static str>, desc: &'a dyn Fn(usize) -> String }
+struct Run<'a> { seen: &'a mut HashSet<&'static str>, desc: &'a dyn Fn(usize) -> String, failed: bool }
 impl Run<'_> {
     fn fail(&mut self, label: &'static str, k: usize, observed: String, expected: String) {
+        self.failed = true;
         if self.seen.insert(label) { report(label, (self.desc)(k), observed, expected); }
     }
 }
 
 fn label_of(exps: &[Exp], r: &Req) -> &'static str {
-    match exps.iter().find(|e| e.req == *r).map(|e| e.outcome) { Some(Outcome::Failed) => L_FAILED, Some(Outcome::Refused) => L_REFUSED, _ => L_DELIVERED }
+    let has = |o: Outcome| exps.iter().any(|e| e.req == *r && e.outcome == o);
+    if has(Outcome::Sent) { L_DELIVERED } else if has(Outcome::Failed) { L_FAILED } else if has(Outcome::Refused) { L_REFUSED } else { L_DELIVERED }
 }
 
 pub fn run_scenario<R: RiskManager<State = State>>(rig: &mut Rig<R>, links: [Link; N_EX], trading0: bool, refused: &[String], steps: &[Step], seen: &mut HashSet<&'static str>) {
@@ -62,7 +64,7 @@ pub fn run_scenario<R: RiskManager<State = State>>(rig: &mut Rig<R>, links: [Lin
     let lay = &*lay;
     let observable = rig.observable;
     let desc = |k: usize| format!("{}{} (at event #{k})", if observable { "" } else { "tx map from ExecutionBuilder; " }, describe(&links, trading0, refused, &steps[..=k.min(steps.len() - 1)]));
-    let mut run = Run { seen, desc: &desc };
+    let mut run = Run { seen, desc: &desc, failed: false };
     let mut model = Model::new(lay, links, trading0, refused);
     let debug = std::env::var("VX_DEBUG_MODEL").is_ok();
     for (k, (ev, script)) in steps.iter().enumerate() {
@@ -108,7 +110,9 @@ pub fn run_scenario<R: RiskManager<State = State>>(rig: &mut Rig<R>, links: [Lin
                 for (y, d) in delivered.iter().enumerate() {
                     let c = count(d, r);
                     let want = if y == x { n } else { 0 };
-                    if c != want { run.fail(label_of(&exps, r), k, format!("{} reported sent {n}x; delivered {c}x to exchange {y}; all deliveries {:?}", r.short(), delivered.iter().map(|d| shorts(d)).collect::<Vec<_>>()), format!("delivered {want}x to exchange {y} (named exchange: {x})")); }
+                    // (a fatal strategy batch drops its outputs from the audit: the same request may then have gone out once more, see B/E)
+                    let dropped_more = y == x && algo_failed && c > n && c == exps.iter().filter(|e| e.req == *r && e.outcome == Outcome::Sent).count();
+                    if c != want && !dropped_more { run.fail(label_of(&exps, r), k, format!("{} reported sent {n}x; delivered {c}x to exchange {y}; all deliveries {:?}", r.short(), delivered.iter().map(|d| shorts(d)).collect::<Vec<_>>()), format!("delivered {want}x to exchange {y} (named exchange: {x})")); }
                 }
                 if x >= N_EX || rig.rxs[x].is_none() { run.fail(label_of(&exps, r), k, format!("{} reported sent but exchange {x} has no live link", r.short()), "failed with an unrecoverable error".into()); }
             }
@@ -139,7 +143,8 @@ pub fn run_scenario<R: RiskManager<State = State>>(rig: &mut Rig<R>, links: [Lin
                 Outcome::Sent => {
                     let n = exps.iter().filter(|f| f.req == *r && f.outcome == Outcome::Sent).count();
                     if observable && count(&delivered[x], r) != n { run.fail(L_DELIVERED, k, format!("{} (link healthy) delivered {}x to exchange {x}", r.short(), count(&delivered[x], r)), format!("delivered {n}x")); }
-                    if !outputs_dropped && count(&rep.sent, r) != n { run.fail(L_DELIVERED, k, format!("{} (link healthy) reported sent {}x; errors {:?}", r.short(), count(&rep.sent, r), rep.errors.iter().filter(|(q, _)| q == r).map(|(_, er)| er.to_string()).collect::<Vec<_>>()), format!("reported sent {n}x")); }
+                    let n_rep = exps.iter().filter(|f| f.req == *r && f.outcome == Outcome::Sent && !(f.via == Via::Algo && algo_failed)).count();
+                    if !outputs_dropped && count(&rep.sent, r) != n_rep { run.fail(L_DELIVERED, k, format!("{} (link healthy) reported sent {}x; errors {:?}", r.short(), count(&rep.sent, r), rep.errors.iter().filter(|(q, _)| q == r).map(|(_, er)| er.to_string()).collect::<Vec<_>>()), format!("reported sent {n_rep}x")); }
                     if !mark_ok { run.fail(L_INFLIGHT, k, format!("{}: order state afterwards {:?}", r.short(), st), format!("{:?}", model.orders[i].get(cid).map(|o| &o.state))); }
                 }
                 Outcome::Failed => {
@@ -156,9 +161,11 @@ pub fn run_scenario<R: RiskManager<State = State>>(rig: &mut Rig<R>, links: [Lin
                     }
                 }
                 Outcome::Refused => {
+                    // (the identical request may also have been issued by the command of this event, which bypasses the risk manager)
+                    let by_cmd = exps.iter().filter(|f| f.req == *r && f.outcome == Outcome::Sent).count();
                     let anywhere: usize = delivered.iter().map(|d| count(d, r)).sum();
                     let listed = outputs_dropped || count(&rep.refused, r) >= 1;
-                    if anywhere != 0 || count(&rep.sent, r) != 0 || rep.errors.iter().any(|(q, _)| q == r) || !listed || !mark_ok {
+                    if anywhere != by_cmd || count(&rep.sent, r) != by_cmd || rep.errors.iter().any(|(q, _)| q == r) || !listed || !mark_ok {
                         run.fail(L_REFUSED, k, format!("{}: delivered {anywhere}x, reported sent {}x, listed refused {}x, order state {:?}", r.short(), count(&rep.sent, r), count(&rep.refused, r), st), "refused: listed as refused, never delivered, no in-flight mark".into());
                     }
                 }
@@ -190,11 +197,13 @@ pub fn run_scenario<R: RiskManager<State = State>>(rig: &mut Rig<R>, links: [Lin
                 let missing: Vec<String> = cmd_exps.iter().filter(|e| e.outcome == Outcome::Sent && (count(&rep.sent, &e.req) == 0 || (observable && count(&delivered[e.req.key().exchange.index()], &e.req) == 0))).map(|e| e.req.short()).collect();
                 if !rep.outputs.contains(&kind) || !missing.is_empty() { run.fail(L_COMMANDS, k, format!("outputs {:?}; not actioned: {missing:?}", rep.outputs), format!("command actioned while disabled ({kind})")); }
             }
-            if let Some(d) = sync_diff(lay, &model, &rig.engine.state) { run.fail(L_COMMANDS, k, d, "state keeps being updated while disabled".into()); }
+            if !run.failed { if let Some(d) = sync_diff(lay, &model, &rig.engine.state) { run.fail(L_COMMANDS, k, d, "state keeps being updated while disabled".into()); } }
             if rig.engine.state.trading != TradingState::Disabled { run.fail(L_DISABLED, k, "engine trading state Enabled".into(), "Disabled".into()); }
         } else if debug {
             if let Some(d) = sync_diff(lay, &model, &rig.engine.state) { eprintln!("MODEL DRIFT at {}: {d}", (run.desc)(k)); }
         }
+        // the reference and the engine have diverged: later steps of this scenario would only echo the first finding
+        if run.failed { return; }
     }
 }
 
@@ -263,32 +272,7 @@ pub fn run(seed: u64, thorough: bool) -> u64 {
     let mut n = 0u64;
     let lay = layout();
     let refused: Vec<String> = vec!["r3".into(), "r4".into(), "r9".into()];
-    // 1. every link configuration x crafted programme (two variants, both initial trading states)
-    for links in all_link_configs() {
-        for variant in 0..4u64 {
-            let steps = programme(&lay, variant);
-            let trading0 = variant >= 2;
-            let mut steps = steps;
-            if trading0 { steps.insert(0, (Ev::Trading(false), None)); }
-            let mut rig = build(&lay, links, if trading0 { TradingState::Enabled } else { TradingState::Disabled }, set_risk(&refused));
-            run_scenario(&mut rig, links, trading0, &refused, &steps, &mut seen);
-            n += 1;
-        }
-    }
-    // 2. tx map built by the real ExecutionBuilder, for every subset of exchanges that have an execution link
-    for mask in 0..(1usize << N_EX) {
-        let mut links = [Link::Missing; N_EX];
-        for x in 0..N_EX { if mask >> x & 1 == 1 { links[x] = Link::Healthy; } }
-        for variant in 0..2u64 {
-            let steps = programme(&lay, variant);
-            match catch_unwind(AssertUnwindSafe(|| builder_rig(&lay, mask, TradingState::Disabled, &refused))) {
-                Ok(Some(mut rig)) => run_scenario(&mut rig, links, false, &refused, &steps, &mut seen),
-                _ => { if seen.insert(L_DELIVERED) { report(L_DELIVERED, format!("ExecutionBuilder with mock links for exchange mask {mask:#b}"), "builder failed / panicked".into(), "tx map".into()); } }
-            }
-            n += 1;
-        }
-    }
-    // 3. seeded random histories
+    // 1. seeded random histories (first: their inputs are the shortest)
     let mut rng = Rng::seeded(seed, 3);
     let rounds = if thorough { 60_000 } else { 4_000 };
     for round in 0..rounds {
@@ -311,6 +295,31 @@ pub fn run(seed: u64, thorough: bool) -> u64 {
             run_scenario(&mut rig, links, trading0, &refused, &steps, &mut seen);
         }
         n += 1;
+    }
+    // 2. every link configuration x crafted programme (two variants, both initial trading states)
+    for links in all_link_configs() {
+        for variant in 0..4u64 {
+            let steps = programme(&lay, variant);
+            let trading0 = variant >= 2;
+            let mut steps = steps;
+            if trading0 { steps.insert(0, (Ev::Trading(false), None)); }
+            let mut rig = build(&lay, links, if trading0 { TradingState::Enabled } else { TradingState::Disabled }, set_risk(&refused));
+            run_scenario(&mut rig, links, trading0, &refused, &steps, &mut seen);
+            n += 1;
+        }
+    }
+    // 3. tx map built by the real ExecutionBuilder, for every subset of exchanges that have an execution link
+    for mask in 0..(1usize << N_EX) {
+        let mut links = [Link::Missing; N_EX];
+        for x in 0..N_EX { if mask >> x & 1 == 1 { links[x] = Link::Healthy; } }
+        for variant in 0..2u64 {
+            let steps = programme(&lay, variant);
+            match catch_unwind(AssertUnwindSafe(|| builder_rig(&lay, mask, TradingState::Disabled, &refused))) {
+                Ok(Some(mut rig)) => run_scenario(&mut rig, links, false, &refused, &steps, &mut seen),
+                _ => { if seen.insert(L_DELIVERED) { report(L_DELIVERED, format!("ExecutionBuilder with mock links for exchange mask {mask:#b}"), "builder failed / panicked".into(), "tx map".into()); } }
+            }
+            n += 1;
+        }
     }
     n
 }
